@@ -25,7 +25,7 @@ CHECKS = {
         "rule": ("one evaluation = one simulated run: 1-6 processor instances (24 kinds: FirFilter R/C, FftFilter R/C, FIRDecimator, FIRInterpolator, "
                  "FIRRateConverter, FIRResampler, Delay R/C, MedianFilter, MAFilter R/C, HilbertFilter, Tuner, Agc R/C, Compressor, Limiter, NoiseGate, "
                  "LMS/NLMS R/C, RLS R/C) with seeded parameters, streams and framings, interleaved on 1-4 simulated threads with churn. "
-                 "A case is non-trivial when the stream was cut into >= 2 frames; cases are distinct by (kind, log2 memory class, framing style, "
+                 "5 % of the instances (thorough 12 %) additionally enumerate ALL 2^(n-1) compositions of their 2..9 (11) granule stream, each on a fresh instance. A case is non-trivial when the stream was cut into >= 2 frames; cases are distinct by (kind, log2 memory class, framing style, "
                  "{frame shorter than memory, single-sample frame, frame spanning two internal blocks}, exact composition for the <=12-granule "
                  "bitmask framings)."),
         "assumptions": ["the one-shot output of a fresh instance of the same class is the reference (metamorphic): a defect that changes one-shot and "
@@ -111,7 +111,7 @@ CHECKS = {
         "batches": [("C09", "asan", 4, 5000, 300000), ("C09", "asan", 1, 1200, 60000), ("C09", "asan", 2, 1200, 60000), ("C09", "tsan", 4, 2000, 80000),
                     ("C09", "tsan", 1, 500, 20000), ("C09F", "tsan", 4, 160, 3000, 1), ("C09F", "asan", 4, 160, 3000, 1)],
         "rule": ("one evaluation = one simulated run: 2-8 (thorough: 16) real threads, 3-10 ops each (fft/rfft/ifft/irfft over power-of-two, composite and prime "
-                 "lengths, xcorr, FftFilter, welch, resample, window::kaiser, a random stream processor, rng/rand/randn/randi/awgn, primes/factor) plus 0-3 plan "
+                 "lengths, xcorr, FftFilter, welch, mscohere, stft+istft, hilbert, thd/sinad, czt, gccphat, finddelay, medfilt, resample, window::kaiser, a random stream processor, rng/rand/randn/randi/awgn, primes/factor) plus 0-3 plan "
                  "objects (FftPlan, FftPlanR, IfftPlan, IfftPlanR, CztPlan of every length class) created before the threads start and solved concurrently; "
                  "12 % of the threads only start when another thread has exited (cold caches). Schedule policy per run: op-boundary switches, uniform "
                  "basic-block preemption (p log-uniform 1e-5..1e-2), PCT with 1-3 priority change points, or one starved thread. Builds with cache size 1/2/4; "
@@ -124,7 +124,7 @@ CHECKS = {
     },
     "C05": {
         "batches": [("C05", "asan", 4, 20000, 2000000)],
-        "rule": ("one evaluation = one call program: 8 pool arrays, then 1-12 ops from a catalogue of 38 op kinds covering the public entry points of include/dsplib/*.h "
+        "rule": ("one evaluation = one call program: 8 pool arrays, then 1-12 ops from a catalogue of 40 op kinds covering the public entry points of include/dsplib/*.h "
                  "(array arithmetic / comparison / index lists / masks / slices incl. initializer lists, container utilities, reductions, fft/ifft/rfft/irfft/hilbert "
                  "with pad/truncate, every plan kind with array and raw-pointer solve, czt, all 24 stream processors, adaptive filters, FIR design, windows, "
                  "resamplers, median, stft/istft/iscola, welch/mscohere, snr/sinad/thd, xcorr/finddelay/gccphat/findpeaks, random, isprime/factor/nextprime/primes, "
